@@ -18,9 +18,9 @@ from .c01 import replay_history
 LEVEL = "model_checking"
 
 CFG_NEST = {"values": (3,), "templates": ("mul2", "add", "inc"), "iops": (("add", ("lit", 1)),), "unreg": True}
-CFG_MIX = {"values": (3,), "index_values": (1,), "templates": ("mul2", "add", "dbl", "pick", "total", "dyn", "abs", "neg", "unit", "kw2"),
+CFG_MIX = {"values": (3,), "index_values": (1,), "templates": ("mul2", "add", "dbl", "pick", "total", "dyn", "abs", "neg", "unit", "kw2", "round1", "floor"),
            "unreg": True, "setc": True}
-CFG_MIX_Q = {"values": (3,), "index_values": (1,), "templates": ("mul2", "pick", "total", "dyn", "unit", "kw2"), "unreg": True}
+CFG_MIX_Q = {"values": (3,), "index_values": (1,), "templates": ("mul2", "pick", "total", "dyn", "unit", "kw2", "abs", "round1", "floor"), "unreg": True}
 CFG_REDUCED = {"values": (3,), "templates": ("mul2", "inc"), "unreg": True}
 # gen_fun as an operation of the history (it may leave state behind, e.g. a source cache), small alphabet, deeper
 # right-nested chains with floats for which re-association changes the result
@@ -29,7 +29,9 @@ CFG_ASSOC = {"values": (0.1,), "templates": ("addr", "mulr"), "unreg": False, "c
 # function and the manager must then fail alike (same exception type, same state left behind)
 CFG_BIG = {"values": (3,), "templates": ("bigdiv", "mul2"), "unreg": False, "call_values": (3, 10 ** 400), "leaves_n": 3}
 CFG_GEN = {"values": (3,), "templates": ("mul2",), "unreg": True, "leaves_n": 3}
-ALPHABETS = {"nest": CFG_NEST, "mix": CFG_MIX, "mixq": CFG_MIX_Q, "reduced": CFG_REDUCED, "gen": CFG_GEN, "assoc": CFG_ASSOC, "big": CFG_BIG}
+# definitions that differ only in literals whose hashes coincide (-1 / -2): whatever is cached per expression must not be keyed by hash
+CFG_HASHLIT = {"values": (3,), "templates": ("mulm1", "mulm2"), "unreg": True, "leaves_n": 3}
+ALPHABETS = {"nest": CFG_NEST, "mix": CFG_MIX, "mixq": CFG_MIX_Q, "reduced": CFG_REDUCED, "gen": CFG_GEN, "assoc": CFG_ASSOC, "big": CFG_BIG, "hashlit": CFG_HASHLIT}
 
 
 def alphabet_for(world, name):
@@ -119,8 +121,20 @@ class System(ManagerSystem):
                     continue
                 # --- behaviour on every value vector (applied in sequence, so later calls start from non-initial states)
                 mstate = ns
-                for vals in itertools.product(self.cfg.get("call_values", (3, 5)), repeat=k):
+                vecs = list(itertools.product(self.cfg.get("call_values", (3, 5)), repeat=k))
+                # ... and, at the end, the LAST vector once more after one argument location was changed by another route (through
+                # the manager): the same function called twice with the same values must assign them twice
+                route = ("route", subset[0], 9 if not isinstance(vecs[-1][0], float) else 0.9)
+                for vals in vecs + ([route, vecs[-1]] if not self.cfg.get("no_repeat") else []):
                     st["calls"] = st.get("calls", 0) + 1
+                    if vals[0] == "route":
+                        try:
+                            wf.apply(("set", vals[1], vals[2]))
+                            wt.apply(("set", vals[1], vals[2]))
+                            mstate, _ = RM.step(mstate, ("set", vals[1], vals[2]))
+                        except Exception:  # noqa  (judged by C01; here it only prepares the repeated call)
+                            break
+                        continue
                     fexc = None
                     try:
                         fn(*vals)
@@ -180,10 +194,11 @@ def plan(tier, seed):
     seeds = common.seeds_for(tier, seed, quick=(0,), thorough=(0, 1, 2))
     jobs = []
     if tier == "quick":
-        runs = [("W-nest", "reduced", 2), ("W-nest-4", "reduced", 3), ("W-mix", "mixq", 2), ("W-flat", "gen", 4), ("W-flat", "assoc", 2), ("W-flat", "big", 2)]
+        runs = [("W-nest", "reduced", 2), ("W-nest-4", "reduced", 3), ("W-mix", "mixq", 2), ("W-flat", "gen", 4), ("W-flat", "assoc", 2), ("W-flat", "big", 2),
+                ("W-flat", "hashlit", 3)]
     else:
         runs = [("W-nest", "nest", 2), ("W-nest", "reduced", 2), ("W-nest-4", "reduced", 4), ("W-mix", "mix", 2), ("W-mix", "mixq", 2), ("W-flat", "gen", 6),
-                ("W-nest-4", "gen", 5), ("W-flat", "assoc", 3), ("W-nest-4", "assoc", 2), ("W-flat", "big", 3)]
+                ("W-nest-4", "gen", 5), ("W-flat", "assoc", 3), ("W-nest-4", "assoc", 2), ("W-flat", "big", 3), ("W-flat", "hashlit", 4), ("W-nest-4", "hashlit", 3)]
     for hs in seeds:
         for wname, alpha, depth in runs:
             jobs.append({"name": f"bfs:{wname}:{alpha}:d{depth}:seed{hs}", "mode": "compiled", "hashseed": hs,
